@@ -42,6 +42,8 @@ var witnesses = []witness{
 	{id: m16.KInt64Str, call: echo1("string", m16.JNum(-9223372036854775808, "go:int64"))},
 	{id: m16.KMapMethod, hist: &histCase{Cont: contSpec{Kind: "map", T: "Hdr", Init: m16.MapOf([]string{"a"}, []m16.GV{m16.Str("1")})},
 		Steps: []step{{Op: "set", Key: "Get", Val: jv(m16.JStr("x"))}}}},
+	{id: m16.KNamedKey, hist: &histCase{Cont: contSpec{Kind: "map", T: "map[KStr]int", Init: m16.MapOf([]string{"a"}, []m16.GV{m16.NumI(1)})},
+		Steps: []step{{Op: "get", Key: "a"}}}},
 	{id: m16.KStoreFrac, hist: &histCase{Cont: contSpec{Kind: "map", T: "map[string]int", Init: m16.MapOf(nil, nil)},
 		Steps: []step{{Op: "set", Key: "c", Val: jv(m16.JNum(-1.5, "lit"))}}}},
 	{id: m16.KStoreBound, hist: &histCase{Cont: contSpec{Kind: "map", T: "map[string]int", Init: m16.MapOf(nil, nil)},
